@@ -2192,3 +2192,1095 @@ theorem attr_agree (b : DbAttr) (a0 : Attr) (nl : Int)
   rw [hn0, ← hrt, ← hnl, hrb, hn1]
 
 end SV.Toc
+
+namespace SV.Toc
+
+/-! # Part 6: chunk tables -/
+
+/-- `lastRegEnt.Size` after the first `i` entries, starting from `lr` -/
+def lrFrom (lr : Option Int) : List Entry → Nat → Option Int
+  | _, 0 => lr
+  | [], _ + 1 => lr
+  | e :: es, i + 1 => lrFrom (if e.type = "reg" then some e.size else lr) es i
+
+theorem lrFrom_succ (es : List Entry) : ∀ (lr : Option Int) (i : Nat) (e : Entry), es[i]? = some e →
+    lrFrom lr es (i + 1) = if e.type = "reg" then some e.size else lrFrom lr es i := by
+  induction es with
+  | nil => intro lr i e h; simp at h
+  | cons x xs ih =>
+    intro lr i e h
+    cases i with
+    | zero =>
+      simp only [List.getElem?_cons_zero, Option.some.injEq] at h; subst h
+      simp [lrFrom]
+    | succ i =>
+      simp only [List.getElem?_cons_succ] at h
+      simp only [lrFrom]
+      exact ih _ i e h
+
+/-- generalisation of `pass1_getElem`: the entry at `i` is `pass1Ent` applied to the loop state
+reached after the entries before it -/
+theorem pass1Go_state (es : List Entry) : ∀ (lp : Path) (lr : Option Int) (i : Nat) (m : MEnt),
+    (pass1Go lp lr es)[i]? = some m →
+      ∃ lp', m = (pass1Ent lp' (lrFrom lr es i) m.e).1 ∧
+        (i = 0 → lp' = lp) ∧
+        (∀ j, i = j + 1 → ∃ mp, (pass1Go lp lr es)[j]? = some mp ∧ lp' = mp.path) := by
+  induction es with
+  | nil => intro lp lr i m h; simp [pass1Go] at h
+  | cons e es ih =>
+    intro lp lr i m h
+    cases i with
+    | zero =>
+      simp only [pass1Go, List.getElem?_cons_zero, Option.some.injEq] at h
+      subst h
+      exact ⟨lp, rfl, fun _ => rfl, fun j hj => by omega⟩
+    | succ i =>
+      simp only [pass1Go, List.getElem?_cons_succ] at h
+      obtain ⟨lp', h1, h2, h3⟩ := ih _ _ i m h
+      refine ⟨lp', ?_, fun h0 => by omega, ?_⟩
+      · exact h1
+      intro j hj
+      have hji : i = j := by omega
+      subst hji
+      cases i with
+      | zero =>
+        refine ⟨(pass1Ent lp lr e).1, by simp [pass1Go], ?_⟩
+        rw [h2 rfl]
+        simp [pass1Ent]
+      | succ i' =>
+        obtain ⟨mp, hmp, hlp⟩ := h3 i' rfl
+        exact ⟨mp, by simpa [pass1Go] using hmp, hlp⟩
+
+/-- a `chunk` entry takes the name of the entry before it -/
+theorem pass1_chunk_path {es : List Entry} {i : Nat} {m mp : MEnt}
+    (hm : (pass1 es)[i + 1]? = some m) (hp : (pass1 es)[i]? = some mp) (hc : m.e.type = "chunk") :
+    m.path = mp.path := by
+  obtain ⟨lp', h1, _, h3⟩ := pass1Go_state es [] none (i + 1) m hm
+  obtain ⟨mp', hmp', hlp⟩ := h3 i rfl
+  have : mp' = mp := by
+    unfold pass1 at hp; rw [hp] at hmp'; exact (Option.some.inj hmp').symm
+  subst this
+  rw [h1]
+  simp [pass1Ent, hc, hlp]
+
+end SV.Toc
+
+namespace SV.Toc
+
+theorem spec_es_ms {es : List Entry} {u : Nat} {m : MEnt} (hm : (pass1 es)[u]? = some m) :
+    ∃ hu : u < es.length, es[u] = m.e := by
+  obtain ⟨he, _⟩ := pass1_getElem es u m hm
+  exact get_of_getElem? he
+
+/-- every `chunk` entry belongs to a `reg` entry before it: it carries that entry's name and pass 1
+has that entry's size at hand -/
+theorem chunk_owner {es : List Entry} (sc : SpecConforming es) :
+    ∀ (u : Nat) (m : MEnt), (pass1 es)[u]? = some m → m.e.type = "chunk" →
+      ∃ r mr, r < u ∧ (pass1 es)[r]? = some mr ∧ mr.e.type = "reg" ∧ mr.path = m.path ∧
+        lrFrom none es u = some mr.e.size := by
+  intro u
+  induction u using Nat.strongRecOn with
+  | _ u ih =>
+    intro m hm hc
+    obtain ⟨hu, heu⟩ := spec_es_ms hm
+    obtain ⟨h0, hprev⟩ := sc.chunkAfterData u hu (by rw [heu]; exact hc)
+    have hpl : u - 1 < (pass1 es).length := by rw [pass1_length]; omega
+    have hmp : (pass1 es)[u - 1]? = some (pass1 es)[u - 1] := List.getElem?_eq_getElem hpl
+    obtain ⟨hup, hep⟩ := spec_es_ms hmp
+    have hu1 : u = (u - 1) + 1 := by omega
+    have hpath : m.path = ((pass1 es)[u - 1]).path := by
+      rw [hu1] at hm
+      exact pass1_chunk_path hm hmp hc
+    have hlr : lrFrom none es u =
+        if es[u - 1].type = "reg" then some es[u - 1].size else lrFrom none es (u - 1) := by
+      conv => lhs; rw [hu1]
+      exact lrFrom_succ es none (u - 1) _ (List.getElem?_eq_getElem hup)
+    rcases hprev with hr | hch
+    · refine ⟨u - 1, _, by omega, hmp, by rw [← hep]; exact hr, hpath.symm, ?_⟩
+      rw [hlr, if_pos hr, hep]
+    · obtain ⟨r, mr, h1, h2, h3, h4, h5⟩ := ih (u - 1) (by omega) _ hmp (by rw [← hep]; exact hch)
+      refine ⟨r, mr, by omega, h2, h3, by rw [h4, hpath], ?_⟩
+      have : es[u - 1].type ≠ "reg" := by rw [hch]; decide
+      rw [hlr, if_neg this, h5]
+
+/-- the size pass 1 (and the db loop) give a chunk row of a file of size `sz` -/
+def normSize (sz : Int) (e : Entry) : Int :=
+  let cs := if e.chunkSize = 0 then sz - e.chunkOffset else e.chunkSize
+  if cs = 0 ∧ e.size ≠ 0 then e.size else cs
+
+theorem chunk_size {es : List Entry} (sc : SpecConforming es) {u : Nat} {m : MEnt}
+    (hm : (pass1 es)[u]? = some m) (hc : m.e.type = "chunk") :
+    ∃ r mr, r < u ∧ (pass1 es)[r]? = some mr ∧ mr.e.type = "reg" ∧ mr.path = m.path ∧
+      m.chunkSize = normSize mr.e.size m.e := by
+  obtain ⟨r, mr, h1, h2, h3, h4, h5⟩ := chunk_owner sc u m hm hc
+  refine ⟨r, mr, h1, h2, h3, h4, ?_⟩
+  obtain ⟨lp', hst, _, _⟩ := pass1Go_state es [] none u m hm
+  have hcs := congrArg MEnt.chunkSize hst
+  rw [hcs]
+  simp [pass1Ent, h5, hc, normSize]
+
+theorem dbChunkSize_chunk (sz : Int) (e : Entry) (hc : e.type = "chunk") :
+    dbChunkSize sz e = normSize sz e := by
+  simp [dbChunkSize, normSize, hc]
+
+/-- names of `reg` entries identify them: a chunk carries the name of exactly one file -/
+theorem owner_unique {es : List Entry} (sc : SpecConforming es) {r r' : Nat} {mr mr' : MEnt}
+    (h1 : (pass1 es)[r]? = some mr) (h2 : (pass1 es)[r']? = some mr')
+    (hc1 : mr.e.type ≠ "chunk") (hc2 : mr'.e.type ≠ "chunk") (hp : mr.path = mr'.path) : r = r' :=
+  (spec_treeOK sc).nodup r r' mr.path ⟨mr, h1, hc1, rfl⟩ ⟨mr', h2, hc2, hp.symm⟩
+
+end SV.Toc
+
+namespace SV.Toc
+
+/-- chunk entries the db store files under the file named `p` of size `sz` -/
+def PpD (p : Path) (sz : Int) (m : MEnt) : Bool :=
+  m.e.type = "chunk" ∧ m.path = p ∧ dbChunkSize sz m.e > 0
+
+/-- what `md[id].chunks` of the file at index `r` holds after the first `i` entries -/
+def dRowsSpec (ms : List MEnt) (i r : Nat) (mr : MEnt) : List Chunk :=
+  (if r < i ∧ mr.e.size > 0 then [dbRow 0 mr.e] else []) ++
+    ((ms.take i).filter (PpD mr.path mr.e.size)).map fun m => dbRow mr.e.size m.e
+
+def idOf (ms : List MEnt) (t : Nat) (mt : MEnt) : Key :=
+  if mt.e.type = "hardlink" then resolveKey ms t else .ent t
+
+structure CInv (ms : List MEnt) (i : Nat) (c : CState) : Prop where
+  regs : ∀ r mr, ms[r]? = some mr → mr.e.type = "reg" → c.chunks (.ent r) = dRowsSpec ms i r mr
+  others : ∀ k, (∀ r mr, ms[r]? = some mr → mr.e.type = "reg" → k ≠ .ent r) → c.chunks k = []
+  last : ∀ m, 0 < i → ms[i - 1]? = some m → ∃ t mt, t < i ∧ ms[t]? = some mt ∧ mt.e.type ≠ "chunk" ∧
+    mt.path = m.path ∧ c.lastEnt = some (idOf ms t mt) ∧ c.lastEntSize = mt.e.size
+
+theorem dbRow_nonchunk (a b : Int) (e : Entry) (h : e.type ≠ "chunk") : dbRow a e = dbRow b e := by
+  simp [dbRow, dbChunkSize, h]
+
+theorem take_succ_filter (ms : List MEnt) (i : Nat) (m : MEnt) (hm : ms[i]? = some m) (P : MEnt → Bool) :
+    (ms.take (i + 1)).filter P = (ms.take i).filter P ++ (if P m then [m] else []) := by
+  rw [List.take_add_one, hm]
+  simp only [Option.toList_some, List.filter_append]
+  congr 1
+  by_cases h : P m <;> simp [List.filter, h]
+
+theorem cinv {es : List Entry} (sc : SpecConforming es) :
+    ∀ i, i ≤ es.length → CInv (pass1 es) i (cRun (pass1 es) es i) := by
+  intro i
+  induction i with
+  | zero =>
+    intro _
+    refine ⟨?_, ?_, ?_⟩
+    · intro r mr _ _; simp [cRun, cRunFrom, dRowsSpec]
+    · intro k _; simp [cRun, cRunFrom]
+    · intro m h; omega
+  | succ i ih =>
+    intro hi
+    have hlt : i < es.length := by omega
+    have inv := ih (by omega)
+    have hltm : i < (pass1 es).length := by rw [pass1_length]; exact hlt
+    have hm : (pass1 es)[i]? = some (pass1 es)[i] := List.getElem?_eq_getElem hltm
+    obtain ⟨_, hee⟩ := spec_es_ms hm
+    rw [cRun_succ _ _ _ hlt, hee]
+    generalize hmdef : (pass1 es)[i] = m at hm
+    generalize hcdef : cRun (pass1 es) es i = c at inv
+    by_cases hc : m.e.type = "chunk"
+    · -- a chunk row: filed under the file whose name it carries
+      obtain ⟨r0, mr0, hr0, hmr0, hreg0, hpath0, _⟩ := chunk_owner sc i m hm hc
+      have hi0 : 0 < i := by omega
+      have hpl : i - 1 < (pass1 es).length := by omega
+      have hmp : (pass1 es)[i - 1]? = some (pass1 es)[i - 1] := List.getElem?_eq_getElem hpl
+      have hmi : (pass1 es)[(i - 1) + 1]? = some m := by
+        have : i - 1 + 1 = i := by omega
+        rw [this]; exact hm
+      have hpp := pass1_chunk_path hmi hmp hc
+      obtain ⟨t, mt, ht, hmt, hct, hpt, hle, hls⟩ := inv.last _ hi0 hmp
+      have hnc0 : mr0.e.type ≠ "chunk" := by rw [hreg0]; decide
+      have htr : t = r0 := owner_unique sc hmt hmr0 hct hnc0 (by rw [hpt, ← hpp, hpath0])
+      subst htr
+      have hmteq : mt = mr0 := by rw [hmt] at hmr0; exact Option.some.inj hmr0
+      subst hmteq
+      have hid : idOf (pass1 es) t mt = .ent t := by
+        have : mt.e.type ≠ "hardlink" := by rw [hreg0]; decide
+        simp [idOf, this]
+      rw [hid] at hle
+      have hstep : cStep (pass1 es) c i m.e =
+          if dbChunkSize mt.e.size m.e > 0 then cAppend c (.ent t) (dbRow mt.e.size m.e) else c := by
+        unfold cStep
+        simp only [hc, ↓reduceIte, hls, hle]
+      rw [hstep]
+      refine ⟨?_, ?_, ?_⟩
+      · intro r mr hmr hreg
+        unfold dRowsSpec
+        rw [take_succ_filter _ i m hm]
+        have hri : (r < i + 1 ∧ mr.e.size > 0) ↔ (r < i ∧ mr.e.size > 0) := by
+          constructor
+          · rintro ⟨h1, h2⟩
+            refine ⟨?_, h2⟩
+            by_cases hri : r = i
+            · subst hri; rw [hm] at hmr; cases hmr; rw [hc] at hreg; exact absurd hreg (by decide)
+            · omega
+          · rintro ⟨h1, h2⟩; exact ⟨by omega, h2⟩
+        simp only [hri]
+        have hold := inv.regs r mr hmr hreg
+        unfold dRowsSpec at hold
+        by_cases hrt : r = t
+        · subst hrt
+          have hmreq : mr = mt := by rw [hmt] at hmr; exact (Option.some.inj hmr).symm
+          subst hmreq
+          have hP : PpD mr.path mr.e.size m = decide (dbChunkSize mr.e.size m.e > 0) := by
+            simp [PpD, hc, hpath0]
+          by_cases hpos : dbChunkSize mr.e.size m.e > 0
+          · simp only [hpos, ↓reduceIte, hP, decide_true, List.map_append, List.map_cons, List.map_nil]
+            simp only [cAppend, ↓reduceIte, hold, List.append_assoc]
+          · simp only [hpos, ↓reduceIte, hP, decide_false, Bool.false_eq_true, List.append_nil]
+            exact hold
+        · have hP : PpD mr.path mr.e.size m = false := by
+            have hnc : mr.e.type ≠ "chunk" := by rw [hreg]; decide
+            have : m.path ≠ mr.path := by
+              intro e
+              exact hrt (owner_unique sc hmr hmt hnc hnc0 (by rw [← e, hpath0]))
+            simp [PpD, this]
+          simp only [hP, Bool.false_eq_true, ↓reduceIte, List.append_nil]
+          have hne : Key.ent r ≠ Key.ent t := by intro e; cases e; exact hrt rfl
+          split
+          · simp only [cAppend, hne, ↓reduceIte]; exact hold
+          · exact hold
+      · intro k hk
+        have hne : k ≠ Key.ent t := hk t mt hmt hreg0
+        split
+        · simp only [cAppend, hne, ↓reduceIte]; exact inv.others k hk
+        · exact inv.others k hk
+      · intro m' _ hm'
+        simp only [Nat.add_sub_cancel] at hm'
+        rw [hm] at hm'; cases hm'
+        refine ⟨t, mt, by omega, hmt, hct, hpath0, ?_, ?_⟩
+        · rw [hid]; split <;> simp [cAppend, hle]
+        · split <;> simp [cAppend, hls]
+    · -- an entry of its own
+      have hstep : cStep (pass1 es) c i m.e =
+          if m.e.type = "reg" ∧ m.e.size > 0 then
+            cAppend { c with lastEnt := some (idOf (pass1 es) i m), lastEntSize := m.e.size }
+              (idOf (pass1 es) i m) (dbRow c.lastEntSize m.e)
+          else { c with lastEnt := some (idOf (pass1 es) i m), lastEntSize := m.e.size } := by
+        unfold cStep idOf
+        simp only [hc, ↓reduceIte]
+      rw [hstep]
+      have hnofilter : ∀ (r : Nat) (mr : MEnt), PpD mr.path mr.e.size m = false := by
+        intro r mr; simp [PpD, hc]
+      refine ⟨?_, ?_, ?_⟩
+      · intro r mr hmr hreg
+        unfold dRowsSpec
+        rw [take_succ_filter _ i m hm, hnofilter r mr]
+        simp only [Bool.false_eq_true, ↓reduceIte, List.append_nil]
+        have hold := inv.regs r mr hmr hreg
+        unfold dRowsSpec at hold
+        by_cases hri : r = i
+        · subst hri
+          have hmreq : mr = m := by rw [hm] at hmr; exact (Option.some.inj hmr).symm
+          subst hmreq
+          have hidr : idOf (pass1 es) r mr = .ent r := by
+            have : mr.e.type ≠ "hardlink" := by rw [hreg]; decide
+            simp [idOf, this]
+          -- nothing was filed under this name before
+          have hempty : ((pass1 es).take r).filter (PpD mr.path mr.e.size) = [] := by
+            rw [List.filter_eq_nil_iff]
+            intro x hx hP
+            simp only [PpD, decide_eq_true_eq] at hP
+            obtain ⟨u, hu, hxu⟩ := List.getElem_of_mem hx
+            have hul : u < r := by simp at hu; omega
+            have hxu' : (pass1 es)[u]? = some x := by
+              rw [List.getElem_take] at hxu
+              rw [← hxu]; exact List.getElem?_eq_getElem (by omega)
+            obtain ⟨r', mr', h1, h2, h3, h4, _⟩ := chunk_owner sc u x hxu' hP.1
+            have hnc' : mr'.e.type ≠ "chunk" := by rw [h3]; decide
+            have := owner_unique sc h2 hm hnc' hc (by rw [h4, hP.2.1])
+            omega
+          rw [hempty] at hold ⊢
+          have hnl : ¬ (r < r ∧ mr.e.size > 0) := by omega
+          simp only [hnl, ↓reduceIte, List.nil_append, List.map_nil] at hold
+          by_cases hpos : mr.e.size > 0
+          · have h1 : r < r + 1 ∧ mr.e.size > 0 := ⟨by omega, hpos⟩
+            have h2 : mr.e.type = "reg" ∧ mr.e.size > 0 := ⟨hreg, hpos⟩
+            simp only [h1, h2, and_self, ↓reduceIte, hidr, cAppend, hold, List.nil_append, List.map_nil,
+              List.append_nil]
+            rw [dbRow_nonchunk _ 0 _ hc]
+          · have h1 : ¬ (r < r + 1 ∧ mr.e.size > 0) := fun h => hpos h.2
+            have h2 : ¬ (mr.e.type = "reg" ∧ mr.e.size > 0) := fun h => hpos h.2
+            simp only [h1, h2, ↓reduceIte, hold, List.map_nil, List.append_nil]
+        · have hri' : (r < i + 1 ∧ mr.e.size > 0) ↔ (r < i ∧ mr.e.size > 0) := by
+            constructor
+            · rintro ⟨h1, h2⟩; exact ⟨by omega, h2⟩
+            · rintro ⟨h1, h2⟩; exact ⟨by omega, h2⟩
+          simp only [hri']
+          split
+          · rename_i hreg'
+            have hidi : idOf (pass1 es) i m = .ent i := by
+              have : m.e.type ≠ "hardlink" := by rw [hreg'.1]; decide
+              simp [idOf, this]
+            have hne : Key.ent r ≠ Key.ent i := by intro e; cases e; exact hri rfl
+            simp only [cAppend, hidi, hne, ↓reduceIte]; exact hold
+          · exact hold
+      · intro k hk
+        split
+        · rename_i hreg'
+          have hidi : idOf (pass1 es) i m = .ent i := by
+            have : m.e.type ≠ "hardlink" := by rw [hreg'.1]; decide
+            simp [idOf, this]
+          have hne : k ≠ Key.ent i := hk i m hm hreg'.1
+          simp only [cAppend, hidi, hne, ↓reduceIte]; exact inv.others k hk
+        · exact inv.others k hk
+      · intro m' _ hm'
+        simp only [Nat.add_sub_cancel] at hm'
+        rw [hm] at hm'; cases hm'
+        refine ⟨i, m, by omega, hm, hc, rfl, ?_, ?_⟩
+        · split <;> simp [cAppend]
+        · split <;> simp [cAppend]
+
+end SV.Toc
+
+namespace SV.Toc
+
+/-- chunk entries the memory store files under the name `p` -/
+def Pp (p : Path) (m : MEnt) : Bool := m.e.type = "chunk" ∧ m.path = p
+
+def rowM (m : MEnt) : Chunk :=
+  { chunkOffset := m.e.chunkOffset, chunkSize := m.chunkSize, digest := memDigest m.e, offset := m.e.offset }
+
+theorem go_append (p : Path) (l1 l2 : List MEnt) : ∀ (i : Nat) (acc : List Nat),
+    memChunkIdxs.go p (l1 ++ l2) i acc = memChunkIdxs.go p l2 (i + l1.length) (memChunkIdxs.go p l1 i acc) := by
+  induction l1 with
+  | nil => intro i acc; simp [memChunkIdxs.go]
+  | cons m rest ih =>
+    intro i acc
+    simp only [List.cons_append, memChunkIdxs.go, List.length_cons]
+    rw [ih]; congr 1; omega
+
+theorem go_nomatch (p : Path) (l : List MEnt) (h : ∀ m ∈ l, m.path ≠ p) : ∀ (i : Nat) (acc : List Nat),
+    memChunkIdxs.go p l i acc = acc := by
+  induction l with
+  | nil => intro i acc; rfl
+  | cons m rest ih =>
+    intro i acc
+    have hm := h m (by simp)
+    simp only [memChunkIdxs.go, hm, and_false, false_and, ↓reduceIte]
+    exact ih (fun x hx => h x (by simp [hx])) _ _
+
+theorem memRows_append (ms : List MEnt) (a b : List Nat) :
+    memRows ms (a ++ b) = memRows ms a ++ memRows ms b := by
+  simp [memRows, List.filterMap_append]
+
+theorem memRows_single (ms : List MEnt) (i : Nat) (m : MEnt) (h : ms[i]? = some m) :
+    memRows ms [i] = [rowM m] := by
+  simp [memRows, h, rowM]
+
+/-- over a suffix without a resetting `reg` entry of that name, the replay appends the chunk rows -/
+theorem go_rows (ms : List MEnt) (p : Path) : ∀ (d i : Nat) (acc : List Nat), ms.length - i = d →
+    (∀ m ∈ ms.drop i, m.e.type = "reg" → m.path ≠ p) →
+    memRows ms (memChunkIdxs.go p (ms.drop i) i acc) =
+      memRows ms acc ++ ((ms.drop i).filter (Pp p)).map rowM ∧
+    (memChunkIdxs.go p (ms.drop i) i acc).length = acc.length + ((ms.drop i).filter (Pp p)).length := by
+  intro d
+  induction d with
+  | zero =>
+    intro i acc hd _
+    rw [List.drop_eq_nil_of_le (by omega)]
+    simp [memChunkIdxs.go]
+  | succ d ih =>
+    intro i acc hd hno
+    have hlt : i < ms.length := by omega
+    rw [List.drop_eq_getElem_cons hlt] at hno ⊢
+    have hnoreset : ¬ (ms[i].e.type = "reg" ∧ ms[i].path = p ∧ ms[i].e.chunkSize > 0 ∧ ms[i].e.chunkSize < ms[i].e.size) :=
+      fun h => hno ms[i] (List.mem_cons_self ..) h.1 h.2.1
+    simp only [memChunkIdxs.go, hnoreset, ↓reduceIte]
+    have hrest := ih (i + 1) (if ms[i].e.type = "chunk" ∧ ms[i].path = p then acc ++ [i] else acc)
+      (by omega) (fun m hm => hno m (List.mem_cons_of_mem _ hm))
+    rw [hrest.1, hrest.2]
+    by_cases hP : ms[i].e.type = "chunk" ∧ ms[i].path = p
+    · have hPp : Pp p ms[i] = true := by simp [Pp, hP]
+      simp only [hP, and_self, ↓reduceIte, List.filter, hPp, List.map_cons, List.length_cons, List.length_append,
+        List.length_nil]
+      rw [memRows_append, memRows_single ms i ms[i] (List.getElem?_eq_getElem hlt)]
+      exact ⟨by simp, by omega⟩
+    · have hPp : Pp p ms[i] = false := by simp [Pp]; exact fun h => (hP ⟨h, ·⟩)
+      simp only [hP, ↓reduceIte, List.filter, hPp]
+      exact ⟨trivial, trivial⟩
+
+end SV.Toc
+
+namespace SV.Toc
+
+/-- row tables that tile `[0, size)`: the memory store's shortcut for fewer than two rows and the
+db store's recomputed table answer alike -/
+theorem lookup_rows_agree (size : Int) (m d : List Chunk) (hc : Contig 0 size m)
+    (he : d.map eraseSize = m.map eraseSize) (x : Int) (hx : 0 ≤ x) :
+    (match m with
+     | [] => ChunkTab.single 0 0 ""
+     | [r] => ChunkTab.single r.chunkOffset r.chunkSize r.digest
+     | _ => ChunkTab.table m).lookup x = (ChunkTab.table (readChunks d size)).lookup x := by
+  rw [readChunks_contig d m size hc he]
+  match m, hc with
+  | [], hc =>
+    simp only [Contig] at hc
+    simp [ChunkTab.lookup, searchChunk, searchFirst, searchLoop, hx]
+  | [r], hc =>
+    obtain ⟨h1, h2, h3⟩ := hc
+    simp only [ChunkTab.lookup]
+    rw [searchChunk_contig [r] 0 size ⟨h1, h2, h3⟩ x]
+    simp only [List.find?, covers]
+    by_cases hlt : x ≥ r.chunkSize
+    · have : ¬ (x < r.chunkOffset + r.chunkSize) := by omega
+      simp [hlt, this]
+    · have : x < r.chunkOffset + r.chunkSize := by omega
+      simp [hlt, this]
+  | _ :: _ :: _, _ => rfl
+
+theorem memDigest_eq (e : Entry) (h : digestOK e = true) : memDigest e = e.chunkDigest := by
+  unfold memDigest
+  unfold digestOK at h
+  by_cases hc : e.chunkDigest = ""
+  · simp [hc] at h ⊢; exact h
+  · simp [hc]
+
+theorem normSize_eff (sz : Int) (e : Entry) (h : e.size = 0) : normSize sz e = effSize sz e := by
+  simp [normSize, effSize, h]
+
+/-- chunk rows that pass `contigOK` tile the rest of the file -/
+theorem contig_of_ok (size : Int) : ∀ (l : List MEnt) (start : Int),
+    (∀ m ∈ l, m.chunkSize = normSize size m.e) → contigOK size start (l.map (·.e)) = true →
+    Contig start size (l.map rowM) ∧ (∀ m ∈ l, digestOK m.e = true ∧ normSize size m.e > 0) := by
+  intro l
+  induction l with
+  | nil =>
+    intro start _ h
+    simp only [List.map_nil, contigOK, decide_eq_true_eq] at h
+    exact ⟨h, fun _ hm => by cases hm⟩
+  | cons c cs ih =>
+    intro start hsz h
+    simp only [List.map_cons, contigOK, Bool.and_eq_true, decide_eq_true_eq] at h
+    obtain ⟨⟨⟨⟨h1, h2⟩, h3⟩, h4⟩, h5⟩ := h
+    have hcs : c.chunkSize = effSize size c.e := by
+      rw [hsz c (by simp), normSize_eff _ _ h2]
+    obtain ⟨ih1, ih2⟩ := ih (start + effSize size c.e) (fun m hm => hsz m (by simp [hm])) h5
+    refine ⟨⟨h1, by simp only [rowM]; rw [hcs]; exact h4, by simp only [rowM]; rw [hcs]; exact ih1⟩, ?_⟩
+    intro m hm
+    rcases List.mem_cons.mp hm with e | e
+    · subst e; exact ⟨h3, by rw [normSize_eff _ _ h2]; exact h4⟩
+    · exact ih2 m e
+
+theorem Contig.lt_of_ne_nil {rows : List Chunk} {s t : Int} (h : Contig s t rows) (hne : rows ≠ []) : s < t := by
+  cases rows with
+  | nil => exact absurd rfl hne
+  | cons r rs => have := h.2.2.le; have := h.2.1; omega
+
+end SV.Toc
+
+namespace SV.Toc
+
+theorem mem_take_index {α : Type} {l : List α} {r : Nat} {a : α} (h : a ∈ l.take r) :
+    ∃ u, u < r ∧ l[u]? = some a := by
+  obtain ⟨u, hu, hxu⟩ := List.getElem_of_mem h
+  have hul : u < r ∧ u < l.length := by simp at hu; omega
+  refine ⟨u, hul.1, ?_⟩
+  rw [List.getElem_take] at hxu
+  rw [← hxu]; exact List.getElem?_eq_getElem hul.2
+
+theorem mem_drop_index {α : Type} {l : List α} {k : Nat} {a : α} (h : a ∈ l.drop k) :
+    ∃ u, k ≤ u ∧ l[u]? = some a := by
+  obtain ⟨u, hu, hxu⟩ := List.getElem_of_mem h
+  rw [List.getElem_drop] at hxu
+  have : k + u < l.length := by simp at hu; omega
+  exact ⟨k + u, by omega, by rw [← hxu]; exact List.getElem?_eq_getElem this⟩
+
+/-- nothing before a file carries its name -/
+theorem before_file {es : List Entry} (sc : SpecConforming es) {r : Nat} {mr : MEnt}
+    (hmr : (pass1 es)[r]? = some mr) (hnc : mr.e.type ≠ "chunk") :
+    ∀ m ∈ (pass1 es).take r, m.path ≠ mr.path := by
+  intro m hm hp
+  obtain ⟨u, hu, hmu⟩ := mem_take_index hm
+  by_cases hc : m.e.type = "chunk"
+  · obtain ⟨r', mr', h1, h2, h3, h4, _⟩ := chunk_owner sc u m hmu hc
+    have hnc' : mr'.e.type ≠ "chunk" := by rw [h3]; decide
+    have := owner_unique sc h2 hmr hnc' hnc (by rw [h4, hp])
+    omega
+  · have := owner_unique sc hmu hmr hc hnc hp
+    omega
+
+theorem after_file {es : List Entry} (sc : SpecConforming es) {r : Nat} {mr : MEnt}
+    (hmr : (pass1 es)[r]? = some mr) (hnc : mr.e.type ≠ "chunk") :
+    ∀ m ∈ (pass1 es).drop (r + 1), m.e.type = "reg" → m.path ≠ mr.path := by
+  intro m hm hreg hp
+  obtain ⟨u, hu, hmu⟩ := mem_drop_index hm
+  have hc : m.e.type ≠ "chunk" := by rw [hreg]; decide
+  have := owner_unique sc hmu hmr hc hnc hp
+  omega
+
+theorem split_at {α : Type} (l : List α) (r : Nat) (a : α) (h : l[r]? = some a) :
+    l = l.take r ++ a :: l.drop (r + 1) ∧ (l.take r).length = r := by
+  obtain ⟨hr, e⟩ := get_of_getElem? h
+  refine ⟨?_, by simp; omega⟩
+  rw [← e, ← List.drop_eq_getElem_cons hr, List.take_append_drop]
+
+/-- `r.chunks[name]` of a file: the `reg` entry itself when it opens a chunked file, then the
+chunk entries carrying its name -/
+theorem mem_table {es : List Entry} (sc : SpecConforming es) {r : Nat} {mr : MEnt}
+    (hmr : (pass1 es)[r]? = some mr) (hreg : mr.e.type = "reg") :
+    memRows (pass1 es) (memChunkIdxs (pass1 es) mr.path) =
+      (if mr.e.chunkSize > 0 ∧ mr.e.chunkSize < mr.e.size then [rowM mr] else []) ++
+        ((pass1 es).filter (Pp mr.path)).map rowM ∧
+    (memChunkIdxs (pass1 es) mr.path).length =
+      (if mr.e.chunkSize > 0 ∧ mr.e.chunkSize < mr.e.size then 1 else 0) +
+        ((pass1 es).filter (Pp mr.path)).length := by
+  have hnc : mr.e.type ≠ "chunk" := by rw [hreg]; decide
+  obtain ⟨hsplit, hlen⟩ := split_at (pass1 es) r mr hmr
+  have hbefore := before_file sc hmr hnc
+  have hafter := after_file sc hmr hnc
+  -- the filter sees only what follows the file
+  have hfilter : (pass1 es).filter (Pp mr.path) = ((pass1 es).drop (r + 1)).filter (Pp mr.path) := by
+    conv => lhs; rw [hsplit]
+    rw [List.filter_append, List.filter_cons]
+    have h1 : ((pass1 es).take r).filter (Pp mr.path) = [] := by
+      rw [List.filter_eq_nil_iff]
+      intro x hx hP
+      simp only [Pp, decide_eq_true_eq] at hP
+      exact hbefore x hx hP.2
+    have h2 : Pp mr.path mr = false := by simp [Pp, hnc]
+    rw [h1, h2]; simp
+  have hidx : memChunkIdxs (pass1 es) mr.path =
+      memChunkIdxs.go mr.path ((pass1 es).drop (r + 1)) (r + 1)
+        (if mr.e.chunkSize > 0 ∧ mr.e.chunkSize < mr.e.size then [r] else []) := by
+    unfold memChunkIdxs
+    have h0 : memChunkIdxs.go mr.path (pass1 es) 0 [] =
+        memChunkIdxs.go mr.path ((pass1 es).take r ++ mr :: (pass1 es).drop (r + 1)) 0 [] :=
+      congrArg (fun l => memChunkIdxs.go mr.path l 0 []) hsplit
+    rw [h0, go_append, go_nomatch _ _ hbefore, hlen]
+    simp [memChunkIdxs.go, hreg]
+  have hrows := go_rows (pass1 es) mr.path ((pass1 es).length - (r + 1)) (r + 1)
+    (if mr.e.chunkSize > 0 ∧ mr.e.chunkSize < mr.e.size then [r] else []) rfl hafter
+  rw [hidx, hrows.1, hrows.2, hfilter]
+  constructor
+  · congr 1
+    split
+    · exact memRows_single _ r mr hmr
+    · rfl
+  · congr 1
+    split <;> rfl
+
+end SV.Toc
+
+namespace SV.Toc
+
+theorem pass1_nonchunk_size {es : List Entry} {r : Nat} {mr : MEnt}
+    (hmr : (pass1 es)[r]? = some mr) (hnc : mr.e.type ≠ "chunk") : mr.chunkSize = regEff mr.e := by
+  obtain ⟨lp', hst, _, _⟩ := pass1Go_state es [] none r mr hmr
+  have hcs := congrArg MEnt.chunkSize hst
+  rw [hcs]
+  simp only [pass1Ent, hnc, false_and, ↓reduceIte, regEff]
+  by_cases h0 : mr.e.chunkSize = 0
+  · by_cases hs : mr.e.size = 0
+    · simp [h0, hs]
+    · simp [h0, hs]
+  · simp [h0]
+
+/-- The chunk tables of one regular file in both stores: same answer at every file offset, same
+first blob offset. -/
+theorem file_agree {es : List Entry} (sc : SpecConforming es) {r : Nat} {mr : MEnt}
+    (hmr : (pass1 es)[r]? = some mr) (hreg : mr.e.type = "reg") :
+    (∀ x, 0 ≤ x →
+      (if (memChunkIdxs (pass1 es) mr.path).length < 2 then
+          ChunkTab.single mr.e.chunkOffset mr.chunkSize (memDigest mr.e)
+        else ChunkTab.table (memRows (pass1 es) (memChunkIdxs (pass1 es) mr.path))).lookup x =
+      (ChunkTab.table (readChunks ((cRun (pass1 es) es es.length).chunks (.ent r)) mr.e.size)).lookup x) ∧
+    (((readChunks ((cRun (pass1 es) es es.length).chunks (.ent r)) mr.e.size).head?.map (·.offset)).getD 0
+      = mr.e.offset) := by
+  have hnc : mr.e.type ≠ "chunk" := by rw [hreg]; decide
+  obtain ⟨hr, hmre⟩ := get_of_getElem? hmr
+  have hfile := sc.files r hr (by rw [hmre]; exact hreg)
+  rw [hmre] at hfile
+  have hchunksOf : chunksOf (pass1 es) mr.path = ((pass1 es).filter (Pp mr.path)).map (·.e) := rfl
+  rw [hchunksOf] at hfile
+  -- sizes of the chunk rows
+  have hsz : ∀ m ∈ (pass1 es).filter (Pp mr.path), m.chunkSize = normSize mr.e.size m.e := by
+    intro m hm
+    obtain ⟨hmem, hP⟩ := List.mem_filter.mp hm
+    simp only [Pp, decide_eq_true_eq] at hP
+    obtain ⟨u, _, hmu⟩ := List.getElem_of_mem hmem
+    have hmu' : (pass1 es)[u]? = some m := by rw [← hmu]; exact List.getElem?_eq_getElem _
+    obtain ⟨r', mr', _, h2, h3, h4, h5⟩ := chunk_size sc hmu' hP.1
+    have hnc' : mr'.e.type ≠ "chunk" := by rw [h3]; decide
+    have := owner_unique sc h2 hmr hnc' hnc (by rw [h4, hP.2])
+    subst this
+    rw [hmr] at h2; cases h2
+    exact h5
+  obtain ⟨htab, hlen⟩ := mem_table sc hmr hreg
+  have hcinv := cinv sc es.length (Nat.le_refl _)
+  have hdb := hcinv.regs r mr hmr hreg
+  have htake : (pass1 es).take es.length = pass1 es := by
+    rw [← pass1_length es]; exact List.take_length
+  unfold dRowsSpec at hdb
+  rw [htake] at hdb
+  have hrl : r < es.length := by rw [← pass1_length es]; exact hr
+  simp only [fileOK, Bool.and_eq_true, decide_eq_true_eq] at hfile
+  obtain ⟨⟨hsize0, hdg⟩, hrest⟩ := hfile
+  by_cases hs0 : mr.e.size = 0
+  · -- an empty file: no rows on either side
+    simp only [hs0, ↓reduceIte, Bool.and_eq_true, List.isEmpty_iff, List.map_eq_nil_iff,
+      decide_eq_true_eq] at hrest
+    obtain ⟨⟨hnil, hcs0⟩, hoff0⟩ := hrest
+    have hnoreset : ¬ (mr.e.chunkSize > 0 ∧ mr.e.chunkSize < mr.e.size) := by omega
+    rw [hnil] at hlen htab
+    simp only [hnoreset, ↓reduceIte, List.length_nil, Nat.add_zero] at hlen
+    have hfd : (pass1 es).filter (PpD mr.path mr.e.size) = [] := by
+      rw [List.filter_eq_nil_iff]
+      intro x hx hP
+      have : x ∈ (pass1 es).filter (Pp mr.path) := by
+        simp only [PpD, decide_eq_true_eq] at hP
+        exact List.mem_filter.mpr ⟨hx, by simp [Pp, hP.1, hP.2.1]⟩
+      rw [hnil] at this; cases this
+    have hnl : ¬ (r < es.length ∧ mr.e.size > 0) := by omega
+    rw [hfd] at hdb
+    simp only [hnl, ↓reduceIte, List.map_nil, List.append_nil] at hdb
+    rw [hdb, hlen]
+    have hmcs : mr.chunkSize = 0 := by
+      rw [pass1_nonchunk_size hmr hnc]; simp [regEff, hcs0, hs0]
+    refine ⟨?_, by simp [readChunks, hoff0]⟩
+    intro x hx
+    rw [if_pos (by omega)]
+    have hr0 : readChunks [] mr.e.size = [] := rfl
+    rw [hr0]
+    simp only [ChunkTab.lookup, hmcs, searchChunk, List.getElem?_nil]
+    rw [if_pos hx]
+  · -- rows tile the file
+    simp only [hs0, ↓reduceIte, Bool.and_eq_true, decide_eq_true_eq] at hrest
+    obtain ⟨⟨hco0, hreff⟩, hcontig⟩ := hrest
+    have hspos : mr.e.size > 0 := by omega
+    obtain ⟨hct, hall⟩ := contig_of_ok mr.e.size _ (regEff mr.e) hsz hcontig
+    have hmcs := pass1_nonchunk_size hmr hnc
+    -- the full memory table
+    have hcontigAll : Contig 0 mr.e.size (rowM mr :: ((pass1 es).filter (Pp mr.path)).map rowM) := by
+      refine ⟨hco0, by simp only [rowM]; rw [hmcs]; exact hreff, ?_⟩
+      simp only [rowM]; rw [hmcs]; simpa using hct
+    -- the db rows
+    have hfd : (pass1 es).filter (PpD mr.path mr.e.size) = (pass1 es).filter (Pp mr.path) := by
+      apply List.filter_congr
+      intro x hx
+      by_cases hP : Pp mr.path x = true
+      · have hxm : x ∈ (pass1 es).filter (Pp mr.path) := List.mem_filter.mpr ⟨hx, hP⟩
+        have hpos := (hall x hxm).2
+        simp only [Pp, decide_eq_true_eq] at hP
+        simp only [PpD, Pp, hP.1, hP.2, dbChunkSize_chunk _ _ hP.1, hpos, and_self, decide_true]
+      · simp only [Bool.not_eq_true] at hP
+        rw [hP]
+        simp only [Pp, decide_eq_false_iff_not] at hP
+        simp only [PpD, decide_eq_false_iff_not]
+        intro h; exact hP ⟨h.1, h.2.1⟩
+    have hnl : r < es.length ∧ mr.e.size > 0 := ⟨hrl, hspos⟩
+    rw [hfd] at hdb
+    simp only [hnl, and_self, ↓reduceIte, List.singleton_append] at hdb
+    have herase : ((cRun (pass1 es) es es.length).chunks (.ent r)).map eraseSize =
+        (rowM mr :: ((pass1 es).filter (Pp mr.path)).map rowM).map eraseSize := by
+      rw [hdb]
+      simp only [List.map_cons, List.map_map, List.cons.injEq]
+      refine ⟨?_, ?_⟩
+      · simp [eraseSize, dbRow, rowM, memDigest_eq _ hdg]
+      · apply List.map_congr_left
+        intro x hx
+        simp [eraseSize, dbRow, rowM, memDigest_eq _ (hall x hx).1]
+    have hrc := readChunks_contig _ _ mr.e.size hcontigAll herase
+    refine ⟨?_, by rw [hrc]; simp [rowM]⟩
+    intro x hx
+    have hla := lookup_rows_agree mr.e.size _ _ hcontigAll herase x hx
+    rw [← hla]
+    -- which shape the memory store uses
+    cases hCs : (pass1 es).filter (Pp mr.path) with
+    | nil =>
+      rw [hCs] at hcontig hlen htab hcontigAll
+      simp only [List.map_nil, contigOK, decide_eq_true_eq] at hcontig
+      have hnoreset : ¬ (mr.e.chunkSize > 0 ∧ mr.e.chunkSize < mr.e.size) := by
+        intro ⟨h1, h2⟩
+        simp only [regEff] at hcontig
+        split at hcontig <;> omega
+      simp only [hnoreset, ↓reduceIte, List.length_nil, Nat.add_zero] at hlen
+      rw [hlen]
+      simp only [Nat.zero_lt_succ, ↓reduceIte, List.map_nil, rowM]
+    | cons c cs =>
+      rw [hCs] at hlen htab hct
+      have hlt := hct.lt_of_ne_nil (by simp)
+      have hreset : mr.e.chunkSize > 0 ∧ mr.e.chunkSize < mr.e.size := by
+        simp only [regEff] at hlt hreff
+        split at hlt <;> omega
+      simp only [hreset, and_self, ↓reduceIte, List.length_cons] at hlen htab
+      have hge : ¬ (memChunkIdxs (pass1 es) mr.path).length < 2 := by omega
+      rw [if_neg hge, htab]
+      simp only [List.map_cons, List.singleton_append]
+
+end SV.Toc
+
+namespace SV.Toc
+
+/-! ## mode bits -/
+
+theorem bits_of (perm a b c ty : Nat) (hp : perm < 512) (ha : a ≤ 1) (hb : b ≤ 1) (hc : c ≤ 1)
+    (hty : ty = 0 ∨ ty = 2147483648 ∨ ty = 134217728 ∨ ty = 69206016 ∨ ty = 67108864 ∨ ty = 33554432) :
+    modeTypeBits (perm + (c * 8388608 + b * 4194304 + a * 1048576) + ty) = ty := by
+  unfold modeTypeBits bit modeDir modeSymlink modeDevice modeNamedPipe modeSocket modeCharDevice modeIrregular
+  generalize hn : perm + (c * 8388608 + b * 4194304 + a * 1048576) + ty = n
+  rcases hty with h | h | h | h | h | h <;> subst h
+  · have e31 : n / 2 ^ 31 % 2 = 0 := by omega
+    have e27 : n / 2 ^ 27 % 2 = 0 := by omega
+    have e26 : n / 2 ^ 26 % 2 = 0 := by omega
+    have e25 : n / 2 ^ 25 % 2 = 0 := by omega
+    have e24 : n / 2 ^ 24 % 2 = 0 := by omega
+    have e21 : n / 2 ^ 21 % 2 = 0 := by omega
+    have e19 : n / 2 ^ 19 % 2 = 0 := by omega
+    simp [e31, e27, e26, e25, e24, e21, e19]
+  · have e31 : n / 2 ^ 31 % 2 = 1 := by omega
+    have e27 : n / 2 ^ 27 % 2 = 0 := by omega
+    have e26 : n / 2 ^ 26 % 2 = 0 := by omega
+    have e25 : n / 2 ^ 25 % 2 = 0 := by omega
+    have e24 : n / 2 ^ 24 % 2 = 0 := by omega
+    have e21 : n / 2 ^ 21 % 2 = 0 := by omega
+    have e19 : n / 2 ^ 19 % 2 = 0 := by omega
+    simp [e31, e27, e26, e25, e24, e21, e19]
+  · have e31 : n / 2 ^ 31 % 2 = 0 := by omega
+    have e27 : n / 2 ^ 27 % 2 = 1 := by omega
+    have e26 : n / 2 ^ 26 % 2 = 0 := by omega
+    have e25 : n / 2 ^ 25 % 2 = 0 := by omega
+    have e24 : n / 2 ^ 24 % 2 = 0 := by omega
+    have e21 : n / 2 ^ 21 % 2 = 0 := by omega
+    have e19 : n / 2 ^ 19 % 2 = 0 := by omega
+    simp [e31, e27, e26, e25, e24, e21, e19]
+  · have e31 : n / 2 ^ 31 % 2 = 0 := by omega
+    have e27 : n / 2 ^ 27 % 2 = 0 := by omega
+    have e26 : n / 2 ^ 26 % 2 = 1 := by omega
+    have e25 : n / 2 ^ 25 % 2 = 0 := by omega
+    have e24 : n / 2 ^ 24 % 2 = 0 := by omega
+    have e21 : n / 2 ^ 21 % 2 = 1 := by omega
+    have e19 : n / 2 ^ 19 % 2 = 0 := by omega
+    simp [e31, e27, e26, e25, e24, e21, e19]
+  · have e31 : n / 2 ^ 31 % 2 = 0 := by omega
+    have e27 : n / 2 ^ 27 % 2 = 0 := by omega
+    have e26 : n / 2 ^ 26 % 2 = 1 := by omega
+    have e25 : n / 2 ^ 25 % 2 = 0 := by omega
+    have e24 : n / 2 ^ 24 % 2 = 0 := by omega
+    have e21 : n / 2 ^ 21 % 2 = 0 := by omega
+    have e19 : n / 2 ^ 19 % 2 = 0 := by omega
+    simp [e31, e27, e26, e25, e24, e21, e19]
+  · have e31 : n / 2 ^ 31 % 2 = 0 := by omega
+    have e27 : n / 2 ^ 27 % 2 = 0 := by omega
+    have e26 : n / 2 ^ 26 % 2 = 0 := by omega
+    have e25 : n / 2 ^ 25 % 2 = 1 := by omega
+    have e24 : n / 2 ^ 24 % 2 = 0 := by omega
+    have e21 : n / 2 ^ 21 % 2 = 0 := by omega
+    have e19 : n / 2 ^ 19 % 2 = 0 := by omega
+    simp [e31, e27, e26, e25, e24, e21, e19]
+
+def typeBitsOf (t : String) : Nat :=
+  if t = "dir" then modeDir else if t = "symlink" then modeSymlink
+  else if t = "char" then modeDevice + modeCharDevice else if t = "block" then modeDevice
+  else if t = "fifo" then modeNamedPipe else 0
+
+theorem modeTypeBits_go (t : String) (m : Int) : modeTypeBits (goFileMode t m) = typeBitsOf t := by
+  unfold goFileMode typeBitsOf
+  simp only []
+  have hperm : ((m % 4096).toNat) % 512 < 512 := Nat.mod_lt _ (by decide)
+  generalize ((m % 4096).toNat) % 512 = perm at hperm
+  generalize bit (m % 4096).toNat 11 = b1
+  generalize bit (m % 4096).toNat 10 = b2
+  generalize bit (m % 4096).toNat 9 = b3
+  have hfl : ((if b1 = true then modeSetuid else 0) + (if b2 = true then modeSetgid else 0) +
+      (if b3 = true then modeSticky else 0)) =
+      ((if b1 = true then 1 else 0) * 8388608 + (if b2 = true then 1 else 0) * 4194304 +
+        (if b3 = true then 1 else 0) * 1048576) := by
+    cases b1 <;> cases b2 <;> cases b3 <;> decide
+  rw [hfl]
+  apply bits_of perm _ _ _ _ hperm
+  · split <;> omega
+  · split <;> omega
+  · split <;> omega
+  · simp only [modeDir, modeSymlink, modeDevice, modeCharDevice, modeNamedPipe]
+    (repeat' split) <;> simp
+
+theorem fmIsRegular_go (t : String) (m : Int) : fmIsRegular (goFileMode t m) = decide (typeBitsOf t = 0) := by
+  unfold fmIsRegular; rw [modeTypeBits_go]
+
+end SV.Toc
+
+namespace SV.Toc
+
+/-! # Part 7: the two trees of a SpecConforming TOC agree -/
+
+theorem getKid_nil (b : String) : getKid b [] = none := rfl
+
+theorem final_states {es : List Entry} (sc : SpecConforming es) :
+    ∃ smF sdF, pass2 (pass1 es) (enumFrom' 0 (pass1 es)) { nl := initNl (pass1 es) } = some smF ∧
+      dRun (enumFrom' 0 es) dInit = .inl sdF ∧
+      Inv (pass1 es) es.length smF sdF [] (fun _ => 0) ∧
+      cproj sdF = cRun (pass1 es) es es.length ∧ [] ∈ smF.imps := by
+  have ok := spec_treeOK sc
+  obtain ⟨smF, sdF, h1, h2, inv, hcp⟩ := run_sim ok sc.names (spec_first sc) es.length 0
+    { nl := initNl (pass1 es) } dInit (by omega) (Nat.zero_le _) (init_inv _) rfl
+    (fun ⟨j, _, hj, _⟩ => by omega)
+  simp only [List.drop_zero] at h1 h2
+  refine ⟨smF, sdF, h1, h2, inv, hcp, ?_⟩
+  -- some entry has been linked below the root, so the root directory exists
+  obtain ⟨i, hi, hci⟩ := sc.nonEmpty
+  have hil : i < (pass1 es).length := by rw [pass1_length]; exact hi
+  have hm : (pass1 es)[i]? = some (pass1 es)[i] := List.getElem?_eq_getElem hil
+  obtain ⟨_, hee⟩ := spec_es_ms hm
+  have hc : ((pass1 es)[i]).e.type ≠ "chunk" := by rw [← hee]; exact hci
+  have hnc : NonChunkAt (pass1 es) i ((pass1 es)[i]).path := ⟨_, hm, hc, rfl⟩
+  have hne : ((pass1 es)[i]).path ≠ [] := fun e => ok.noRoot i (e ▸ hnc)
+  have hl := (lastIdx_eq_some_iff _ ok.nodup _ i).mpr hnc
+  have hw := inv.walk ((pass1 es)[i]).path
+  simp only [List.not_mem_nil, ↓reduceIte] at hw
+  have hlook : look (pass1 es) es.length smF.imps ((pass1 es)[i]).path = some (resolveKey (pass1 es) i) := by
+    unfold look; rw [if_neg hne, hl]; simp [hi]
+  rw [hlook] at hw
+  apply inv.rootImp
+  intro hnil
+  rw [inv.kids] at hnil
+  cases hp : ((pass1 es)[i]).path with
+  | nil => exact hne hp
+  | cons b rest =>
+    rw [hp] at hw
+    simp only [walkKids, hnil, getKid_nil] at hw
+    cases hw
+
+theorem memTree_accept {es : List Entry} {smF : MState}
+    (h : pass2 (pass1 es) (enumFrom' 0 (pass1 es)) { nl := initNl (pass1 es) } = some smF)
+    (hroot : [] ∈ smF.imps) (hl : lastIdx (pass1 es) [] = none) :
+    memTree es = .accept { root := .root, node := memNode (pass1 es) smF } := by
+  unfold memTree
+  simp only [h]
+  have hlen : lenM (pass1 es) smF ≠ 0 := by
+    unfold lenM
+    have : 0 < smF.imps.length := List.length_pos_of_mem hroot
+    omega
+  simp only [hlen, ↓reduceIte]
+  have : mLookupResolved (pass1 es) smF [] = some .root := by
+    unfold mLookupResolved mLookup
+    rw [hl]
+    simp only [hroot, ↓reduceIte, impKey]
+    unfold mGetSource
+    simp [keyType]
+  rw [this]
+
+theorem dbTree_accept {es : List Entry} {sdF : DState} (h : dRun (enumFrom' 0 es) dInit = .inl sdF) :
+    dbTree es = .accept { root := .root, node := dbNode sdF } := by
+  unfold dbTree dInitNodes
+  rw [h]
+
+end SV.Toc
+
+namespace SV.Toc
+
+theorem mGetSource_nonhardlink (ms : List MEnt) (s : MState) (bound n : Nat) (k : Key)
+    (h : keyType ms k ≠ "hardlink") : mGetSource ms s bound n k = some k := by
+  unfold mGetSource; simp [h]
+
+theorem mLookupResolved_ent {ms : List MEnt} (ok : TreeOK ms) (s : MState) {j : Nat} {m : MEnt}
+    (hm : ms[j]? = some m) (hc : m.e.type ≠ "chunk") (hh : m.e.type ≠ "hardlink") :
+    mLookupResolved ms s m.path = some (.ent j) := by
+  unfold mLookupResolved mLookup
+  rw [(lastIdx_eq_some_iff ms ok.nodup _ j).mpr ⟨m, hm, hc, rfl⟩]
+  exact mGetSource_nonhardlink ms s _ 0 _ (by rw [keyType_ent hm]; exact hh)
+
+theorem validTypes_cases {t : String} (h : t ∈ validTypes) (hc : t ≠ "chunk") (hh : t ≠ "hardlink") :
+    t = "reg" ∨ t = "dir" ∨ t = "symlink" ∨ t = "char" ∨ t = "block" ∨ t = "fifo" := by
+  simp only [validTypes, List.mem_cons, List.not_mem_nil, or_false] at h
+  rcases h with h | h | h | h | h | h | h | h
+  · exact Or.inr (Or.inl h)
+  · exact Or.inl h
+  · exact Or.inr (Or.inr (Or.inl h))
+  · exact absurd h hh
+  · exact Or.inr (Or.inr (Or.inr (Or.inl h)))
+  · exact Or.inr (Or.inr (Or.inr (Or.inr (Or.inl h))))
+  · exact Or.inr (Or.inr (Or.inr (Or.inr (Or.inr h))))
+  · exact absurd h hc
+
+theorem lookup_empty_table (x : Int) : (ChunkTab.table (readChunks [] 0)).lookup x = none := by
+  have : readChunks [] 0 = [] := rfl
+  rw [this]; simp [ChunkTab.lookup, searchChunk]
+
+theorem readChunks_nil (size : Int) : readChunks [] size = [] := rfl
+
+/-- every node that exists is described alike by both stores -/
+theorem node_agree {es : List Entry} (sc : SpecConforming es) {smF : MState} {sdF : DState}
+    (inv : Inv (pass1 es) es.length smF sdF [] (fun _ => 0))
+    (hcp : cproj sdF = cRun (pass1 es) es es.length) (hroot : [] ∈ smF.imps)
+    (k : Key) (hk : Created (pass1 es) es.length smF.imps k) :
+    NodeAgree (memNode (pass1 es) smF k) (dbNode sdF k) := by
+  have ok := spec_treeOK sc
+  obtain ⟨b, hb, hbe, hbn⟩ := inv.node k hk
+  have hnl : readNumLink b = smF.nl k := by
+    rw [hbn]; unfold nlEff; simp [hroot]
+  have hchunks : sdF.chunks = (cRun (pass1 es) es es.length).chunks := by
+    have := congrArg CState.chunks hcp; exact this
+  have hcinv := cinv sc es.length (Nat.le_refl _)
+  -- children exist
+  have herr2 : ((sdF.kids k).any fun kv => (sdF.nodes kv.2).isNone) = false := by
+    rw [List.any_eq_false]
+    intro kv hkv
+    obtain ⟨b', hb', _, _⟩ := inv.node kv.2 (inv.kidsCreated k kv hkv)
+    simp [hb']
+  have hdb : dbNode sdF k =
+      { attr := readAttr b,
+        offset := ((readChunks (sdF.chunks k) (readAttr b).size).head?.map (·.offset)).getD 0,
+        openOk := fmIsRegular (readAttr b).mode,
+        chunks := .table (readChunks (sdF.chunks k) (readAttr b).size),
+        kids := sdF.kids k,
+        kidsErr := (sdF.kids k).any fun kv => (sdF.nodes kv.2).isNone } := by
+    unfold dbNode; rw [hb]
+  cases k with
+  | ent j =>
+    obtain ⟨hj, m, hm, hc, hh⟩ := hk
+    obtain ⟨hjl, hee⟩ := spec_es_ms hm
+    have hx : (m.e.xattrs.map Prod.fst).Nodup := by rw [← hee]; exact sc.xattrs j hjl
+    have ha0 : attr0 (pass1 es) (.ent j) = attrOfEntry m.e (if m.e.type = "dir" then 2 else 1) := by
+      simp [attr0, hm]
+    obtain ⟨hattr, hmode, hsize⟩ := attr_agree b (attr0 (pass1 es) (.ent j)) (smF.nl (.ent j)) hbe hnl
+      (attr0_mode_lt _ _) (by rw [ha0]; exact hx)
+    have hres := mLookupResolved_ent ok smF hm hc hh
+    have hmt : memChunkTab (pass1 es) smF (.ent j) =
+        if m.e.isData then
+          (if (memChunkIdxs (pass1 es) m.path).length < 2 then
+            ChunkTab.single m.e.chunkOffset m.chunkSize (memDigest m.e)
+           else ChunkTab.table (memRows (pass1 es) (memChunkIdxs (pass1 es) m.path)))
+        else ChunkTab.none := by
+      unfold memChunkTab
+      simp only [keyPath, hm, Option.map_some, Option.getD_some, hres]
+    have hm_attr : (memNode (pass1 es) smF (.ent j)).attr = attrOfEntry m.e (smF.nl (.ent j)) := by
+      simp [memNode, hm]
+    have hm_off : (memNode (pass1 es) smF (.ent j)).offset = m.e.offset := by simp [memNode, hm]
+    have hm_open : (memNode (pass1 es) smF (.ent j)).openOk = decide (m.e.type = "reg") := by
+      simp only [memNode, hm, hres, keyType_ent hm]
+    have hm_chunks : (memNode (pass1 es) smF (.ent j)).chunks = memChunkTab (pass1 es) smF (.ent j) := by
+      simp [memNode, hm]
+    have hm_kids : (memNode (pass1 es) smF (.ent j)).kids = smF.kids (.ent j) := by simp [memNode, hm]
+    have hm_ok : (memNode (pass1 es) smF (.ent j)).ok = true := by simp [memNode, hm]
+    have hm_err : (memNode (pass1 es) smF (.ent j)).kidsErr = false := by simp [memNode, hm]
+    rw [hdb]
+    have hsz' : (readAttr b).size = m.e.size := by rw [hsize, ha0]; rfl
+    have hmd' : (readAttr b).mode = goFileMode m.e.type m.e.mode := by rw [hmode, ha0]; rfl
+    have hty : m.e.type ∈ validTypes := by rw [← hee]; exact sc.types j hjl
+    refine ⟨hm_ok, rfl, hm_err, herr2, by rw [hm_kids]; exact inv.kids _, ?_, ?_, ?_, ?_, ?_, ?_⟩
+    · rw [hm_attr]; show _ = normalise (readAttr b); rw [hattr, ha0]; rfl
+    · rw [hm_attr]; show _ = (readAttr b).mode; rw [hmd']; rfl
+    · rw [hm_attr]; show _ = (readAttr b).size; rw [hsz']; rfl
+    · -- GetOffset
+      rw [hm_off]
+      show m.e.offset = _
+      rw [hsz', hchunks]
+      by_cases hreg : m.e.type = "reg"
+      · exact (file_agree sc hm hreg).2.symm
+      · rw [hcinv.others (.ent j) (by
+          intro r mr hmr hregr e; cases e; rw [hm] at hmr; cases hmr; exact hreg hregr)]
+        rw [readChunks_nil]
+        have : m.e.offset = 0 := by rw [← hee]; exact sc.noOffset j hjl (by rw [hee]; exact hreg) (by rw [hee]; exact hc)
+        simp [this]
+    · -- OpenFile
+      rw [hm_open]
+      show _ = fmIsRegular (readAttr b).mode
+      rw [hmd', fmIsRegular_go]
+      rcases validTypes_cases hty hc hh with h | h | h | h | h | h <;> rw [h] <;> decide
+    · -- ChunkEntryForOffset
+      intro x hx0
+      rw [hm_chunks]
+      show (memChunkTab (pass1 es) smF (.ent j)).lookup x = _
+      rw [hmt, hsz', hchunks]
+      by_cases hreg : m.e.type = "reg"
+      · have hd : m.e.isData = true := by simp [Entry.isData, hreg]
+        rw [hd]
+        exact (file_agree sc hm hreg).1 x hx0
+      · have hd : m.e.isData = false := by simp [Entry.isData, hreg, hc]
+        rw [hd]
+        rw [hcinv.others (.ent j) (by
+          intro r mr hmr hregr e; cases e; rw [hm] at hmr; cases hmr; exact hreg hregr)]
+        rw [readChunks_nil]
+        simp [ChunkTab.lookup, searchChunk]
+  | root =>
+    obtain ⟨hattr, hmode, hsize⟩ := attr_agree b (attr0 (pass1 es) .root) (smF.nl .root) hbe hnl
+      (attr0_mode_lt _ _) (by simp [attr0, rootAttr])
+    have hnotreg : ∀ r mr, (pass1 es)[r]? = some mr → mr.e.type = "reg" → Key.root ≠ .ent r := by
+      intro r mr _ _ e; cases e
+    have hmtab : memChunkTab (pass1 es) smF .root = .none := by
+      unfold memChunkTab mLookupResolved mLookup
+      have hl : lastIdx (pass1 es) [] = none := (lastIdx_eq_none_iff _ []).mpr ok.noRoot
+      simp only [keyPath, hl, hroot, ↓reduceIte, impKey]
+      rw [mGetSource_nonhardlink _ _ _ _ _ (by simp [keyType])]
+    rw [hdb]
+    have hm0 : (attr0 (pass1 es) .root).mode = modeDir + 0o755 := rfl
+    refine ⟨rfl, rfl, rfl, herr2, inv.kids _, ?_, ?_, ?_, ?_, ?_, ?_⟩
+    · rw [hattr]; simp only [memNode, attr0, rootAttr]; rfl
+    · rw [hmode]; simp only [memNode, attr0, rootAttr]; decide
+    · rw [hsize]; rfl
+    · show (0 : Int) = _
+      rw [hchunks, hcinv.others .root hnotreg, readChunks_nil]; rfl
+    · show false = fmIsRegular (readAttr b).mode
+      rw [hmode, hm0]; decide
+    · intro x _
+      show (memChunkTab (pass1 es) smF .root).lookup x = _
+      rw [hmtab, hchunks, hcinv.others .root hnotreg, readChunks_nil]
+      simp [ChunkTab.lookup, searchChunk]
+  | imp p =>
+    obtain ⟨hp, hpne⟩ := hk
+    obtain ⟨hattr, hmode, hsize⟩ := attr_agree b (attr0 (pass1 es) (.imp p)) (smF.nl (.imp p)) hbe hnl
+      (attr0_mode_lt _ _) (by simp [attr0, rootAttr])
+    have hnotreg : ∀ r mr, (pass1 es)[r]? = some mr → mr.e.type = "reg" → Key.imp p ≠ .ent r := by
+      intro r mr _ _ e; cases e
+    have hmtab : memChunkTab (pass1 es) smF (.imp p) = .none := by
+      unfold memChunkTab mLookupResolved mLookup
+      simp only [keyPath, inv.impsNone p hp, hp, ↓reduceIte, impKey, hpne]
+      rw [mGetSource_nonhardlink _ _ _ _ _ (by simp [keyType])]
+    rw [hdb]
+    have hm0 : (attr0 (pass1 es) (.imp p)).mode = modeDir + 0o755 := rfl
+    refine ⟨rfl, rfl, rfl, herr2, inv.kids _, ?_, ?_, ?_, ?_, ?_, ?_⟩
+    · rw [hattr]; simp only [memNode, attr0, rootAttr]; rfl
+    · rw [hmode]; simp only [memNode, attr0, rootAttr]; decide
+    · rw [hsize]; rfl
+    · show (0 : Int) = _
+      rw [hchunks, hcinv.others _ hnotreg, readChunks_nil]; rfl
+    · show false = fmIsRegular (readAttr b).mode
+      rw [hmode, hm0]; decide
+    · intro x _
+      show (memChunkTab (pass1 es) smF (.imp p)).lookup x = _
+      rw [hmtab, hchunks, hcinv.others _ hnotreg, readChunks_nil]
+      simp [ChunkTab.lookup, searchChunk]
+
+end SV.Toc
+
+namespace SV.Toc
+
+theorem memNode_kids {ms : List MEnt} {i : Nat} {imps : List Path} (s : MState) (k : Key)
+    (hk : Created ms i imps k) : (memNode ms s k).kids = s.kids k := by
+  cases k with
+  | root => rfl
+  | imp p => rfl
+  | ent j =>
+    obtain ⟨_, m, hm, _, _⟩ := hk
+    simp [memNode, hm]
+
+/-- Both interpreters accept a SpecConforming TOC and build trees that agree node by node. -/
+theorem trees_agree {es : List Entry} (sc : SpecConforming es) :
+    ∃ smF sdF,
+      memTree es = .accept { root := .root, node := memNode (pass1 es) smF } ∧
+      dbTree es = .accept { root := .root, node := dbNode sdF } ∧
+      TreesAgree { root := .root, node := memNode (pass1 es) smF } { root := .root, node := dbNode sdF }
+        (Created (pass1 es) es.length smF.imps) := by
+  obtain ⟨smF, sdF, h1, h2, inv, hcp, hroot⟩ := final_states sc
+  have ok := spec_treeOK sc
+  have hl : lastIdx (pass1 es) [] = none := (lastIdx_eq_none_iff _ []).mpr ok.noRoot
+  refine ⟨smF, sdF, memTree_accept h1 hroot hl, dbTree_accept h2, ⟨rfl, trivial, ?_, ?_⟩⟩
+  · intro k hk
+    exact node_agree sc inv hcp hroot k hk
+  · intro k hk kv hkv
+    have : (memNode (pass1 es) smF k).kids = smF.kids k := memNode_kids smF k hk
+    simp only at hkv
+    rw [this, inv.kids] at hkv
+    exact inv.kidsCreated k kv hkv
+
+/-- the canonical views of both stores coincide -/
+theorem views_agree {es : List Entry} (sc : SpecConforming es) :
+    ∃ tm td, memTree es = .accept tm ∧ dbTree es = .accept td ∧ view tm = view td := by
+  obtain ⟨smF, sdF, h1, h2, ag⟩ := trees_agree sc
+  exact ⟨_, _, h1, h2, view_agree ag⟩
+
+end SV.Toc
